@@ -753,10 +753,16 @@ def _(v):
                             syms.append(x.attr)
                         if isinstance(x, ast.Attribute) and getattr(x.value, "id", None) == "self" and isinstance(x.ctx, ast.Store):
                             stores.append(x.attr)
-                if not syms:
-                    continue
                 stem = FUNCTION_OPTION_STEMS.get((q, pn))
                 tag = "%s.%s[%s]" % (short, pn, optname)
+                if not syms:
+                    if stem is not None:
+                        # a named option of a function-valued property that stores something other than a C function of the
+                        # library (e.g. a NULL pointer, which the C side reads as "use the default")
+                        seen += 1
+                        v.ground(tag + ".names_c_function_of_same_meaning", False,
+                                 "option %r of %s.%s references no C symbol; expected %s" % (optname, short, pn, stem + optname))
+                    continue
                 seen += 1
                 v.ground(tag + ".stem_listed", stem is not None, "no stem listed for %s.%s" % (q, pn))
                 if stem is None:
